@@ -24,7 +24,7 @@ theorem C11_request_reparse_partial (cfg : ReqCfg) {s : Bytes} {st : ReqState u}
     ∃ st', (requestSys u (noLimits ov)).parse (Request.new u) (reqBytes v ++ tail) = .ok .complete st' (reqBytes v).length ∧
       st'.method = st.method ∧ st'.target = st.target ∧ st'.headers = st.headers ∧ st'.body = st.body := by
   intro v
-  obtain ⟨e, c, hf, hv, hline, hhdr, hcase⟩ := C03_accept_sound u cfg h
+  obtain ⟨e, c, hf, hv, _, hline, hhdr, hcase⟩ := C03_accept_sound u cfg h
   obtain ⟨tgt, hl, hmne, hmsp, _, _, _⟩ := C03_request_line_sound u hline
   have hframing : (∃ val, headerValue st.headers kContentLength = some val ∧ parseNumber ⟨true⟩ 10 val = some st.body.length) ∨
       (headerValue st.headers kContentLength = none ∧ st.body = []) := by
